@@ -160,6 +160,7 @@ def check_property(pid, tier="quick", seed=0, out=sys.stdout):
         ledger = json.load(open(lp))
     known = [f for f in kf.get("findings", []) if f["property"] == pid]
     violations, undecided, crashes, known_hits = [], [], [], []
+    replay_cache = {}
     rdir = os.path.join(VERIF, "replays", pid)
     os.makedirs(rdir, exist_ok=True)
     for old in glob.glob(os.path.join(rdir, "*.json")):
@@ -186,7 +187,12 @@ def check_property(pid, tier="quick", seed=0, out=sys.stdout):
             fdef = repo.lookup(con.qualname)
             model = resolve_model(ob.pc, ob.goal) if ob.result == "sat" else None
             custom = getattr(con, "replay", None)
-            rep = custom(repo, con, fdef, ob, model) if custom else native_replay(repo, con, fdef, ob, model)
+            if custom:
+                if con.qualname not in replay_cache:
+                    replay_cache[con.qualname] = custom(repo, con, fdef, ob, model)
+                rep = replay_cache[con.qualname]
+            else:
+                rep = native_replay(repo, con, fdef, ob, model)
             sig = rep.get("signature") or ob.oid.split("@")[0]
             hit = None
             for f in known:
